@@ -265,8 +265,23 @@ def c05(res, thorough):
 
 
 def c08(res, thorough):
-    oracle_check(res, thorough, "C08", "segmented", ["the permutation generator is replaced by a deterministic one through the traits", "the quasi bound is judged with the sound real-time reading (an item counts as still present only if its dequeue had not been invoked when x's dequeue responded)"],
-                 threads=4, ops=6)
+    from segq_pre import segq_pre
+    base_cov(res, ["memory orders", "back-off timing",
+                   "Algo/Segmented: Lean machine of SegmentedQueue (segment list with its lock step by step, enqueue / dequeue scans in the order of a permutation that is an ARGUMENT of each operation, "
+                   "create_tail, remove_head) proved for all schedules, thread counts, K and permutation inputs: structure, cells write-once / delete-once, conservation at every instant, "
+                   "EMPTY only if everything stored before the invocation has been taken, dequeues work on the first segment only, quasi bound K-1 in the form the property states; "
+                   "tied by trace conformance (hidden variant i_hp_named: list pointers, lock, every cell CAS, the permutation each operation used, results; start state = the machine's own run of the warm-up)",
+                   "the literal 'empty at some instant during the call' is false of the algorithm (evaluated counterexample in Props/C08Segmented); the property's own wording is what is proved",
+                   "garbage-collected heap in the machine (no segment reuse: what C01/C02 provide); hazard-pointer traffic, the item counter and fences are filtered out; the permutation generator is replaced by a deterministic one through the traits",
+                   "the quasi bound of the client oracle is judged with the sound real-time reading (an item counts as still present only if its dequeue had not been invoked when x's dequeue responded)"],
+             partial=["liveness (a listed item is eventually dequeued): not stated"])
+    lean_step(res, ["CdsVerif.Props.C08", "CdsVerif.Props.C08Segmented"], thorough)
+    for qf in ("2", "4"):
+        tie_A(res, "segmented", "segq", [
+            {"args": ["--mode", "mixed", "--threads", "4", "--ops", "4", "--variant", "i_hp_named", "--qf", qf], "cases": 4000 if thorough else 600},
+            {"args": ["--mode", "enum1", "--threads", "3", "--ops", "3", "--variant", "i_hp_named", "--qf", qf], "cases": 12 if thorough else 4}],
+            pre=segq_pre)
+    tie_H(res, "segmented", hist_runs(thorough, 4, 6, (10, 20), (3000, 40000)), judged=False)
 
 
 def c12(res, thorough):
@@ -518,7 +533,7 @@ TABLE = {
     "C20": ("translation_validation", c20),
     "C04": ("proof", c04),
     "C05": ("proof", c05),
-    "C08": ("exploration", c08),
+    "C08": ("proof", c08),
     "C12": ("proof", c12),
     "C21": ("proof", c21),
     "C24": ("proof", c24),
